@@ -1,6 +1,7 @@
 import GoBk.Proofs.GroupOrder
 import GoBk.Proofs.ConstsEq
 import GoBk.Proofs.BytesLemmas
+import GoBk.Proofs.CurveDef
 import GoBk.Model.Ecdsa
 /-
   Lemmas for the ECDSA properties C02 / C03 / C12: arithmetic modulo the group order `N`
@@ -123,13 +124,15 @@ theorem natBE_length_le_32 {k : ℕ} (hk : k < 2 ^ 256) : (natBE k).length ≤ 3
 theorem scalarBaseMult_natBE {k : ℕ} (hk : k < 2 ^ 256) :
     Curve.scalarBaseMult (natBE k) = smul k G := by
   have := natBE_length_le_32 hk
-  unfold Curve.scalarBaseMult Curve.moduloReduce
+  rw [Curve.scalarBaseMult_def]
+  unfold Curve.moduloReduce
   rw [if_neg (by omega), beNat_natBE]
 
 theorem scalarMult_natBE (q : Pt) {k : ℕ} (hk : k < 2 ^ 256) :
     Curve.scalarMult q (natBE k) = smul k q := by
   have := natBE_length_le_32 hk
-  unfold Curve.scalarMult Curve.moduloReduce
+  rw [Curve.scalarMult_def]
+  unfold Curve.moduloReduce
   rw [if_neg (by omega), beNat_natBE]
 
 theorem mod_N_lt_pow (a : ℕ) : a % N < 2 ^ 256 :=
@@ -166,7 +169,7 @@ theorem verify_of_range (q : Pt) (h : Bytes) {r s : Int} (hr1 : 1 ≤ r) (hrN : 
   have h2 : ¬ (s ≤ 0) := by omega
   have h3 : ¬ (r.toNat ≥ N) := by omega
   have h4 : ¬ (s.toNat ≥ N) := by omega
-  simp only [Ecdsa.verify, Curve.add, EN, scalarBaseMult_natBE (mod_N_lt_pow _),
+  simp only [Ecdsa.verify, Curve.add_def, EN, scalarBaseMult_natBE (mod_N_lt_pow _),
     scalarMult_natBE _ (mod_N_lt_pow _), h1, h2, h3, h4, decide_false, Bool.or_self,
     Bool.false_eq_true, if_false]
   unfold verifyPt
@@ -201,5 +204,115 @@ theorem verifyPt_twin {q : Pt} (hq : valid q = true) (h : Bytes) (r : ℕ) {s : 
 theorem valid_verifyPt {q : Pt} (hq : valid q = true) (h : Bytes) (r s : ℕ) :
     valid (verifyPt q h r s) = true :=
   valid_padd (valid_smul _ valid_G) (valid_smul _ hq)
+
+/-! ### Sign -/
+
+theorem nonceLoop_range (pr : Prims) : ∀ (fuel : ℕ) (k v : Bytes) (n : ℕ),
+    Ecdsa.nonceLoop pr fuel k v = some n → 1 ≤ n ∧ n < N := by
+  intro fuel
+  induction fuel with
+  | zero => intro k v n h; simp [Ecdsa.nonceLoop] at h
+  | succ f ih =>
+    intro k v n h
+    unfold Ecdsa.nonceLoop at h
+    simp only at h
+    split at h
+    · rename_i hc
+      rw [EN] at hc
+      cases h; exact hc
+    · exact ih _ _ _ h
+
+/-- what a successful `sign` computed -/
+theorem sign_some {pr : Prims} {fuel d : ℕ} {h : Bytes} {r s : ℕ}
+    (hs : Ecdsa.sign pr fuel d h = some (r, s)) :
+    ∃ k, Ecdsa.nonceRFC6979 pr fuel d h = some k ∧ 1 ≤ k ∧ k < N ∧
+      r = (smul k G).1 % N ∧ r ≠ 0 ∧
+      ∃ s0, s0 = (d * r + Ecdsa.hashToInt h) * invMod k N % N ∧ s0 ≠ 0 ∧
+        s = if s0 > N / 2 then N - s0 else s0 := by
+  unfold Ecdsa.sign at hs
+  split at hs
+  · cases hs
+  · rename_i k hk
+    have hkr : 1 ≤ k ∧ k < N := nonceLoop_range pr _ _ _ _ hk
+    have hk256 : k < 2 ^ 256 := Nat.lt_trans hkr.2 N_lt_pow
+    simp only [EN, Ecdsa.halfOrder, scalarBaseMult_natBE hk256] at hs
+    generalize hs0 : (d * ((smul k G).1 % N) + Ecdsa.hashToInt h) * invMod k N % N = s0 at hs
+    by_cases hr0 : (smul k G).1 % N = 0
+    · rw [if_pos hr0] at hs; cases hs
+    rw [if_neg hr0] at hs
+    by_cases hS : (if s0 > N / 2 then N - s0 else s0) = 0
+    · rw [if_pos hS] at hs; cases hs
+    rw [if_neg hS] at hs
+    have hp := Option.some.inj hs
+    have hr : _ = r := congrArg Prod.fst hp
+    have hs' : _ = s := congrArg Prod.snd hp
+    dsimp only at hr hs'
+    subst hr
+    refine ⟨k, hk, hkr.1, hkr.2, rfl, hr0, s0, hs0.symm, ?_, hs'.symm⟩
+    intro h0
+    apply hS
+    rw [h0, if_neg (Nat.not_lt_zero _)]
+
+
+theorem lowS_range {s0 : ℕ} (h : s0 < N) (h0 : s0 ≠ 0) :
+    1 ≤ (if s0 > N / 2 then N - s0 else s0) ∧ (if s0 > N / 2 then N - s0 else s0) ≤ N / 2 := by
+  have := N_odd
+  split <;> omega
+
+theorem sign_range_aux {pr : Prims} {fuel d : ℕ} {h : Bytes} {r s : ℕ}
+    (hs : Ecdsa.sign pr fuel d h = some (r, s)) : 1 ≤ r ∧ r < N ∧ 1 ≤ s ∧ s ≤ N / 2 := by
+  obtain ⟨k, _, _, _, hr, hr0, s0, hs0, hs0ne, hs⟩ := sign_some hs
+  have hlt : s0 < N := by rw [hs0]; exact Nat.mod_lt _ N_pos
+  have := lowS_range hlt hs0ne
+  rw [← hs] at this
+  refine ⟨by omega, ?_, this.1, this.2⟩
+  rw [hr]; exact Nat.mod_lt _ N_pos
+
+/-- the algebraic heart of "a signature verifies": `(e/s)·G + (r/s)·(d·G) = k·G` for `s = (d r + e)/k` -/
+theorem verifyPt_sign {d k r : ℕ} (h : Bytes) (hk1 : 1 ≤ k) (hkN : k < N) {s0 : ℕ}
+    (hs0 : s0 = (d * r + Ecdsa.hashToInt h) * invMod k N % N) (hne : s0 ≠ 0) :
+    verifyPt (smul d G) h r s0 = smul k G := by
+  unfold verifyPt
+  rw [smul_smul _ _ valid_G, ← smul_add _ _ valid_G]
+  apply smul_eq_of_cast valid_G
+  have hkF : (k : Fn) ≠ 0 := castN_ne_zero hk1 hkN
+  have hsF : (s0 : Fn) = ((d : Fn) * r + (Ecdsa.hashToInt h : Fn)) * (k : Fn)⁻¹ := by
+    rw [hs0, ZMod.natCast_mod, Nat.cast_mul, Nat.cast_add, Nat.cast_mul, cast_invModN]
+  have hs0F : (s0 : Fn) ≠ 0 := by
+    apply castN_ne_zero (by omega)
+    rw [hs0]; exact Nat.mod_lt _ N_pos
+  have hnum : ((d : Fn) * r + (Ecdsa.hashToInt h : Fn)) ≠ 0 := by
+    intro h0; rw [h0, zero_mul] at hsF; exact hs0F hsF
+  rw [Nat.cast_add, Nat.cast_mul, ZMod.natCast_mod, ZMod.natCast_mod, Nat.cast_mul, Nat.cast_mul,
+    cast_invModN, hsF]
+  field_simp
+  ring
+
+
+theorem smul_G_ne_inf {k : ℕ} (hk1 : 1 ≤ k) (hkN : k < N) : smul k G ≠ inf := by
+  rw [Ne, smul_G_eq_inf_iff]
+  intro hd
+  have := Nat.le_of_dvd (by omega) hd
+  omega
+
+theorem sign_verifies_aux {pr : Prims} {fuel d : ℕ} {h : Bytes} {r s : ℕ}
+    (hs : Ecdsa.sign pr fuel d h = some (r, s)) :
+    Ecdsa.verify (smul d G) h (r : Int) (s : Int) = true := by
+  obtain ⟨hr1, hrN, hs1, hsN⟩ := sign_range_aux hs
+  obtain ⟨k, _, hk1, hkN, hr, hr0, s0, hs0, hs0ne, hs⟩ := sign_some hs
+  have hlt : s0 < N := by rw [hs0]; exact Nat.mod_lt _ N_pos
+  have hvq : valid (smul d G) = true := valid_smul d valid_G
+  rw [verify_of_range _ _ (by omega) (by omega) (by omega) (by omega), Int.toNat_natCast,
+    Int.toNat_natCast]
+  have hkey := verifyPt_sign (d := d) (r := r) h hk1 hkN hs0 hs0ne
+  have hne := smul_G_ne_inf hk1 hkN
+  by_cases hflip : s0 > N / 2
+  · rw [if_pos hflip] at hs
+    rw [hs, verifyPt_twin hvq h r hlt.le, hkey, pneg_fst, Ne, pneg_eq_inf_iff (valid_smul k valid_G)]
+    exact ⟨hne, hr.symm⟩
+  · rw [if_neg hflip] at hs
+    rw [hs, hkey]
+    exact ⟨hne, hr.symm⟩
+
 
 end GoBk.Proofs
